@@ -1018,7 +1018,8 @@ def t_pinned(ctx):
     case = {"steps": steps, "fresh": [[list(range(n))[::-1], []], [list(range(0, n, 2)) + list(range(1, n, 2)), ["py_ecc.bn128"]],
                                        [list(range(n)), ["attr:secp256k1", "attr:bls", "attr:optimized_bn128"]],
                                        [list(range(n)), ["flag:-O", "env:PYTHONHASHSEED=4242"]],
-                                       [list(range(n)), ["warn:error"]]]}
+                                       [list(range(n)), ["warn:error"]],
+                                       [list(range(n)), ["flag:-bb"]]]}
     ctx.ev(n)
     o_history(ctx, case)
     for g in ("field", "curve", "pairing", "hash", "codec", "bls", "secp"):
